@@ -160,6 +160,10 @@ pub fn record(args: &[String]) {
         if *j == 2 {
             // the third run of every input: debug logging on, nothing else changed
             env.push(("RUST_LOG".into(), "debug".into()));
+        } else if *j == 3 {
+            // the fourth run: a stale PWD / OLDPWD naming another existing directory (what chdir-then-exec leaves behind)
+            env.push(("PWD".into(), std::env::temp_dir().display().to_string()));
+            env.push(("OLDPWD".into(), "/".into()));
         } else if *j >= 2 && rng.gen_bool(0.5) {
             for (k, val) in [("RUST_BACKTRACE", "1"), ("NO_COLOR", "1"), ("HOME", "/nonexistent"), ("PAGER", "cat"), ("COLUMNS", "20"), ("ZERV_SOMETHING", "x"), ("SOURCE_DATE_EPOCH", "1"),
                            // logging goes to stderr: turning it up, down or off must not change stdout
